@@ -56,12 +56,21 @@ def dist_events(n, g, id0, cuts, with_lists=True):
     """all ordered pairs (pair query), list form, all-pairs tables for each cut, prepared distances"""
     ev = []
     net = build_network(n, g)
+    # all queries go to ONE network object, so every query but the first has a history; the order of the pairs varies with the
+    # graph: source-major, target-major (every query follows one from another source, the self query (s, s) included), or
+    # each self query first
+    pairs = [(s, t) for s in range(n) for t in range(n)]
+    k = (n + len(g) + sum(x[2] for x in g)) % 3
+    if k == 1:
+        pairs.sort(key=lambda p: (p[1], p[0]))
+    elif k == 2:
+        pairs.sort(key=lambda p: ((p[0] + p[1]) % n, p[1]))
+    for s, t in pairs:
+        f = (s + 2 * t + len(g)) % 4            # id/id, Node/id, id/Node, Node/Node
+        with core.quiet():
+            d = net.shortest_distance(arg(net, s, f & 1), arg(net, t, f >> 1))
+        ev.append({"id": id0 + len(ev), "ev": "dist", "n": n, "g": g, "s": s, "t": t, "d": wire(d), "api": "pair"})
     for s in range(n):
-        for t in range(n):
-            f = (s + 2 * t + len(g)) % 4            # id/id, Node/id, id/Node, Node/Node
-            with core.quiet():
-                d = net.shortest_distance(arg(net, s, f & 1), arg(net, t, f >> 1))
-            ev.append({"id": id0 + len(ev), "ev": "dist", "n": n, "g": g, "s": s, "t": t, "d": wire(d), "api": "pair"})
         if with_lists:
             with core.quiet():
                 ds = net.shortest_distance(s)
@@ -109,6 +118,45 @@ def path_events(n, g, id0):
                     e["has"] = True
                     e["path"] = [int(x) for x in p.path]
                     e["geom"] = [vid(o.position) for o in p.getObsList()]
+            except Exception as ex:
+                e["exc"] = repr(ex)[:200]
+            ev.append(e)
+    return ev
+
+
+def path_events_edited(n, g, id0):
+    """history: every pair is routed once, THEN every edge geometry is replaced (interior vertices 300+j, 400+j instead of
+    100+j, 200+j - an edited or simplified network is an ordinary network), then pairs are routed again on the same object.
+    The abstraction maps the CURRENT interior vertices to the model's labels and the former ones to labels no edge has."""
+    from tracklib.core.track import Track
+    from tracklib.core.obs import Obs
+    ev = []
+    net = build_network(n, g)
+    with core.quiet():
+        for s in range(n):
+            for t in range(n):
+                if s != t and (s + t + len(g)) % 2:
+                    try:
+                        net.shortest_path(s, t)
+                    except Exception:
+                        pass
+        for j, (s, t, w, o) in enumerate(g, start=1):
+            net.getEdge(j - 1 + eid0(n, g)).geom = Track([Obs(vcoord(s)), Obs(vcoord(300 + j)), Obs(vcoord(400 + j)), Obs(vcoord(t))])
+
+    def relabel(v):
+        return v - 200 if 300 <= v < 500 else (v + 400 if 100 <= v < 300 else v)
+    for s in range(n):
+        for t in range(n):
+            if s == t or (s + 2 * t + len(g)) % 3:
+                continue
+            e = {"id": id0 + len(ev), "ev": "path", "n": n, "g": g, "s": s, "t": t, "has": False, "path": [], "geom": [], "hist": "edited"}
+            try:
+                with core.quiet():
+                    p = net.shortest_path(s, t)
+                if p is not None:
+                    e["has"] = True
+                    e["path"] = [int(x) for x in p.path]
+                    e["geom"] = [relabel(vid(o.position)) for o in p.getObsList()]
             except Exception as ex:
                 e["exc"] = repr(ex)[:200]
             ev.append(e)
